@@ -5,7 +5,8 @@ From Coq Require Import List Bool Arith.
 Import ListNotations.
 From Lime Require Import Base.Res Chan.Teardown.
 
-Inductive initiator := IClientFinish | IServerFinish | IServerFail | IClientClose | IServerClose.
+Inductive initiator := IClientFinish | IServerFinish | IServerFail | IClientClose | IServerClose
+  | ICrossFail.   (* the server fails the session while the client's FinishSession is between its send and its receive *)
 
 (* an observation that the harness could not make is None and is not compared *)
 Record tobs := {
@@ -31,16 +32,17 @@ Record case := {
 Definition round : list tlabel := [TRecv Cl; TConsume Cl; TRecv Sv; TConsume Sv; TClientStep; TServerStep].
 Fixpoint rounds (n : nat) : list tlabel := match n with O => [] | S k => round ++ rounds k end.
 
-Definition init_label (i : initiator) : tlabel :=
+Definition init_labels (i : initiator) : list tlabel :=
   match i with
-  | IClientFinish | IClientClose => TClientFinish
-  | IServerFinish | IServerClose => TServerEnd TFinished
-  | IServerFail => TServerEnd TFailed
+  | IClientFinish | IClientClose => [TClientFinish]
+  | IServerFinish | IServerClose => [TServerEnd TFinished]
+  | IServerFail => [TServerEnd TFailed]
+  | ICrossFail => [TServerEnd TFailed; TClientFinish]
   end.
 
 Definition settled (c : case) : tst :=
   trun (k_inproc c) true (tinit (k_cap c) (k_to_cl c) (k_to_sv c))
-       (init_label (k_init c) :: rounds (3 * (k_to_cl c + k_to_sv c) + 12)).
+       (init_labels (k_init c) ++ rounds (3 * (k_to_cl c + k_to_sv c) + 12)).
 Definition closed_after (c : case) : tst :=
   trun (k_inproc c) true (settled c) [TClientClose; TClientStep; TRecv Sv].
 
@@ -81,7 +83,7 @@ Definition tobs_eqb (a b : tobs) : bool :=
   Nat.eqb (b_finished_cb a) (b_finished_cb b) && Nat.eqb (b_goroutines a) (b_goroutines b).
 
 (* ---- the property on an observation, stated without the model ---- *)
-Definition expected_term (i : initiator) : term := match i with IServerFail => TFailed | _ => TFinished end.
+Definition expected_term (i : initiator) : term := match i with IServerFail | ICrossFail => TFailed | _ => TFinished end.
 Definition is_some_true (x : option bool) : bool := match x with Some b => b | None => true end.
 Definition is_some_false (x : option bool) : bool := match x with Some b => negb b | None => true end.
 
@@ -94,7 +96,7 @@ Definition check (c : case) (ob : tobs) : bool :=
   is_some_true (b_cl_streams ob) && is_some_true (b_sv_streams ob) &&
   (* the initiator's connection is closed by the terminating call; the server's in every case *)
   is_some_false (b_sv_conn ob) &&
-  (match k_init c with IClientFinish | IClientClose => is_some_false (b_cl_conn ob) | _ => true end) &&
+  (match k_init c with IClientFinish | IClientClose | ICrossFail => is_some_false (b_cl_conn ob) | _ => true end) &&
   (* once the observer has closed its channel nothing is left *)
   is_some_false (b_cl_conn_after ob) &&
   (* what was sent before the terminal envelope is delivered *)
